@@ -84,6 +84,10 @@ type c14Graph struct {
 var (
 	c14Given   = []string{"John", "Mary", "Kid", "Ann", "Zoë", "Li"}
 	c14Surname = []string{"Smith", "Jones", "Smith", "Brown", "Adams"}
+	// names without a single a-z / 0-9 (other scripts, accented letters only), short and of varied
+	// length, sharing letters with each other: name comparison sees them as they are written
+	c14NonLatin = []string{"雷 /李/", "李 /雷/", "雷雷 /李/", "王 /小明/", "小明 /王/", "Иван /Петров/", "Ива /Петр/", "Ян /Ли/", "Ли /Ян/", "Пётр /Иванов/",
+		"Ωμέγα /Αλφα/", "Αλ /Ωμ/", "ÉÈ /ÜÖ/", "Ü /É/", "É /Ü/", "ÉÜ", "/李/", "雷", "محمد /علي/", "علي /محمد/", "ÑÉ /ÖÜÄ/"}
 	c14OddSurn = []string{"1Smith", "#hash", "Éclair", "Ünal", "Kelvin", "İzmir", "王", " lead", "-dash", "'t Hooft", "Ж", " nbsp", "z"}
 	c14GoodDates = []string{"1 Jan 1850", "1850", "Abt. 1900", "Bet. 1850 and 1860", "12 Dec 1910", "Bef. 1700", "3 Sep 1943", "Mar 1880"}
 	c14BadDates  = []string{"garbage", "31 Feb 1850", "Bet. 1900 and 1800", "", "(phrase)", "@#DJULIAN@ 1 JAN 1700", "0",
@@ -98,6 +102,9 @@ func c14Base(r *Rand, now int) *c14Graph {
 	for i := 0; i < n; i++ {
 		p := &c14Indi{ptr: fmt.Sprintf("I%d", i+1), surn: "\x00"}
 		p.names = []string{r.Pick(c14Given) + " /" + r.Pick(c14Surname) + "/"}
+		if r.Chance(1, 5) {
+			p.names[0] = r.Pick(c14NonLatin)
+		}
 		if r.Chance(1, 5) {
 			p.names = append(p.names, r.Pick(c14Given)+" /"+r.Pick(c14Surname)+"/ Jr")
 		}
@@ -773,7 +780,12 @@ func init() {
 
 		// a well-formed file as the other side of diff / second document of the merge query
 		okFile := filepath.Join(tmp, "ok.ged")
-		okText := c14Base(c.R.Fork("ok"), now).Text()
+		okGraph := c14Base(c.R.Fork("ok"), now)
+		for k, nm := range []string{"雷 /李/", "Иван /Петров/", "É /Ü/"} {
+			okGraph.indis = append(okGraph.indis, &c14Indi{ptr: fmt.Sprintf("N%d", k+1), names: []string{nm}, surn: "\x00",
+				evs: []c14Ev{{tag: "BIRT", date: "1 Jan 1850", hasDate: true}, {tag: "DEAT", value: "Y"}}})
+		}
+		okText := okGraph.Text()
 		os.WriteFile(okFile, []byte(okText), 0o644)
 
 		var runs []*c14Run
@@ -1062,7 +1074,7 @@ func init() {
 		{
 			type big struct{ n, fam, places, sour int }
 			sizes := []big{{1001, 500, 300, 10}}
-			wide := []big{{350, 1001, 1001, 1001}}
+			wide := []big{{200, 1001, 1001, 1001}}
 			if !c.Quick() {
 				sizes = append(sizes, big{1025, 1100, 1030, 1001}, big{2050, 1030, 2050, 30})
 			}
@@ -1070,7 +1082,7 @@ func init() {
 			os.WriteFile(emptyFile, []byte("0 HEAD\n1 CHAR UTF-8\n0 TRLR\n"), 0o644)
 			addBig := func(label, kind, text, outDir string, args ...string) {
 				runs = append(runs, &c14Run{file: args[0], text: text, kind: kind, args: args[1:], outDir: outDir,
-					limit: 180 * time.Second, label: label})
+					limit: 300 * time.Second, label: label})
 			}
 			for _, sz := range append(sizes, wide...) {
 				label := fmt.Sprintf("large file: %d individuals, %d families, %d places, %d sources", sz.n, sz.fam, sz.places, sz.sour)
